@@ -381,3 +381,57 @@ func vSpanqOp(t []string) string {
 	}
 	return "bad-op"
 }
+
+// --- free-running observer for the race detector -------------------------------------------------------------------
+
+type vAutoSender struct {
+	seed  int64
+	calls int64
+	mu    sync.Mutex
+	resp  chan spanBatchSenderStatus
+}
+
+func (s *vAutoSender) next() int64 {
+	s.mu.Lock()
+	defer s.mu.Unlock()
+	s.calls++
+	return (s.seed*6364136223846793005 + s.calls*1442695040888963407) >> 33
+}
+
+func (s *vAutoSender) connect() (error, spanBatchSenderStatus) {
+	if s.next()%11 == 0 {
+		return errors.New("again"), spanBatchSenderStatus{code: statusImmediateRestart, metric: "Supportability/InfiniteTracing/Span/gRPC/UNAVAILABLE"}
+	}
+	return nil, spanBatchSenderStatus{}
+}
+
+func (s *vAutoSender) send(b encodedSpanBatch) (error, spanBatchSenderStatus) {
+	k := s.next()
+	if k%5 == 0 {
+		time.Sleep(time.Duration(k%97) * time.Microsecond)
+	}
+	if k%13 == 0 {
+		return errors.New("again"), spanBatchSenderStatus{code: statusImmediateRestart, metric: "Supportability/InfiniteTracing/Span/gRPC/INTERNAL"}
+	}
+	return nil, spanBatchSenderStatus{}
+}
+
+func (s *vAutoSender) response() chan spanBatchSenderStatus { return s.resp }
+func (s *vAutoSender) shutdown()                             {}
+func (s *vAutoSender) clone() (spanBatchSender, error)       { return s, nil }
+
+// VerifStressObserver starts a real TraceObserver (worker and supportability goroutines) around a sender that answers
+// by itself; stop shuts it down as AppHarvest.Close does.
+func VerifStressObserver(q uint64, seed int64) (*TraceObserver, func()) {
+	to, worker := newTraceObserverWithWorker(&Config{QueueSize: q})
+	to.sender = &vAutoSender{seed: seed, resp: make(chan spanBatchSenderStatus)}
+	done := make(chan struct{})
+	go func() { defer close(done); defer func() { recover() }(); worker() }()
+	return to, func() {
+		to.Shutdown(500 * time.Millisecond)
+		select {
+		case <-done:
+		case <-time.After(time.Second):
+		}
+	}
+}
